@@ -39,6 +39,8 @@ use_model = not a.no_model
 D50 = 'D50-trace-by-coord-default-bound'
 HERE = os.path.dirname(os.path.abspath(__file__))
 GEN = os.path.join(HERE, '..', '..', 'coq', 'Gen')
+if use_model and not os.path.exists(os.path.join(GEN, 'Coords.v')):
+    use_model = False          # the generator refused the current source: the direct oracles still run (failing-input search)
 STATUS = os.path.join(GEN, 'STATUS.json')
 HDR_FIELDS = json.load(open(STATUS))['hdr_fields'] if os.path.exists(STATUS) else []
 pending = []          # (coq term, check(value text) -> None | message, input description)
